@@ -202,3 +202,73 @@ Fixpoint overlap_free (max : nat) (s : nat * list qpc) (sched : list nat) : bool
   | [] => true
   | i :: rest => q_guard s i && overlap_free max (sys_step _ _ (qstep max) s i) rest
   end.
+
+(* ------------------------------------------------------------------------------------------------
+   5. the quota count as a fold over storage reads, each of which may fail.
+      One index read (GetList of the client's index) and one by-id read (Get) per index entry.
+      Abort       a failing read aborts the admission with a storage error
+                  (repos/connection_code_repository.go ListByTargetClient -> CountActiveByTargetClient -> CreateConnectionCode)
+      SkipRecord  a failing by-id read is logged and skipped (NOT the code; the variant is refuted)
+      Open        a failing index read yields an empty listing and a failing by-id read is skipped
+                  (repos/mapping_repository.go GetClientPortMappings via generic List/Get, as used by
+                  ActivateConnectionCode step 5 — the code as found) *)
+Inductive fpolicy := Abort | SkipRecord | Open.
+Inductive ares := ACreated | ARefused | AFailed.
+
+(* recs: the client's index entries, true = still active; rfaults: for each by-id read in order, does it fail *)
+Fixpoint count_reads (p : fpolicy) (recs : list bool) (rfaults : list bool) : option nat :=
+  match recs with
+  | [] => Some 0
+  | a :: rs =>
+      let f := match rfaults with [] => false | f :: _ => f end in
+      let fs := match rfaults with [] => [] | _ :: fs => fs end in
+      if f then match p with Abort => None | _ => count_reads p rs fs end
+      else match count_reads p rs fs with Some c => Some ((if a then 1 else 0) + c) | None => None end
+  end.
+
+Definition active (recs : list bool) : nat := countb (fun b => b) recs.
+
+(* one whole admission, run alone: count (index read, by-id reads), compare, create *)
+Definition admit_once (p : fpolicy) (max : nat) (recs : list bool) (idxfault : bool) (rfaults : list bool) : ares * list bool :=
+  let counted := if idxfault then match p with Open => Some 0 | _ => None end else count_reads p recs rfaults in
+  match counted with
+  | None => (AFailed, recs)
+  | Some c => if max <=? c then (ARefused, recs) else (ACreated, true :: recs)
+  end.
+
+(* ------------------------------------------------------------------------------------------------
+   6. the repaired quota admission (fixes/C17-quota-per-client-admission.diff): a per-client admission marker
+      taken with SetNX before the count and deleted when the request ends.
+      shared: the client's active count and the marker; l_fault: some read of this caller's count fails. *)
+Inductive lpc :=
+| LNew        (* validation and reads before the admission (activation: GetByCode) *)
+| LStart      (* next: SetNX(admit:<scope>:<client>) *)
+| LHeld       (* marker held; next: count the active entries (reads) and compare *)
+| LCounted    (* below the limit; next: create (writes) *)
+| LDoneHeld   (* created; next: Delete(marker) *)
+| LRefHeld    (* at the limit; next: Delete(marker) *)
+| LFailHeld   (* a read failed; next: Delete(marker) *)
+| LCreated | LRefused | LFailed
+| LBusy.      (* SetNX lost: Conflict, nothing touched *)
+Record lloc := { l_pc : lpc; l_fault : bool }.
+Record lsh := { q_n : nat; q_lock : bool }.
+
+Definition lstep (max : nat) (lo : lloc) (sh : lsh) : lloc * lsh :=
+  let goto p := {| l_pc := p; l_fault := l_fault lo |} in
+  match l_pc lo with
+  | LNew => (goto LStart, sh)
+  | LStart => if q_lock sh then (goto LBusy, sh) else (goto LHeld, {| q_n := q_n sh; q_lock := true |})
+  | LHeld => if l_fault lo then (goto LFailHeld, sh)
+             else if max <=? q_n sh then (goto LRefHeld, sh) else (goto LCounted, sh)
+  | LCounted => (goto LDoneHeld, {| q_n := S (q_n sh); q_lock := q_lock sh |})
+  | LDoneHeld => (goto LCreated, {| q_n := q_n sh; q_lock := false |})
+  | LRefHeld => (goto LRefused, {| q_n := q_n sh; q_lock := false |})
+  | LFailHeld => (goto LFailed, {| q_n := q_n sh; q_lock := false |})
+  | LCreated | LRefused | LFailed | LBusy => (lo, sh)
+  end.
+Definition l_holds (lo : lloc) : bool :=
+  match l_pc lo with LHeld | LDoneHeld | LRefHeld | LFailHeld => true | _ => false end.
+Definition l_counted (lo : lloc) : bool := match l_pc lo with LCounted => true | _ => false end.
+Definition l_created (lo : lloc) : bool := match l_pc lo with LDoneHeld | LCreated => true | _ => false end.
+Definition l_new (fault : bool) : lloc := {| l_pc := LNew; l_fault := fault |}.
+Definition lrun max (sh : lsh) (ts : list lloc) (sched : list nat) := run _ _ (lstep max) (sh, ts) sched.
